@@ -64,7 +64,8 @@ type batchScn struct {
 	cancel  cancelSpec // cancellation injection
 	// oracle groups
 	chkPositional, chkPerItem, chkLimit, chkStop, chkCancel, chkAction, chkWait bool
-	inFlow                                                                      bool // run as the first node of a flow whose default edge leads to a witness
+	inFlow                                                                      bool          // run as the first node of a flow whose default edge leads to a witness
+	execDur                                                                     time.Duration // every exec takes this much virtual time
 }
 
 // itemState: written by the thread processing the item; read by the main
@@ -416,6 +417,9 @@ func (b *BR) onExec(ctx context.Context, v any, argIsErr bool) answer {
 	if sc.yield {
 		core.Yield()
 	}
+	if sc.execDur > 0 {
+		core.Sleep(sc.execDur)
+	}
 	// ---- C08 usability: mutually dependent items
 	if contains(sc.barrier, i) && k == 0 {
 		b.arrived.Set(b.arrived.Get() + 1)
@@ -590,7 +594,9 @@ func (b *BR) checkSlots(results []flyt.Result) {
 				}
 			}
 		}
-		if sc.chkPerItem && b.cancelled.Get() == 0 && !(sc.stop && b.failedBy.Get() != 0) {
+		if sc.chkPerItem && b.cancelled.Get() == 0 {
+			// every item that IS executed gets exactly its own budget and fallback,
+			// in stop mode too (an item that was never started is judged by C09)
 			b.checkItemScript(i, st)
 		}
 	}
